@@ -364,7 +364,7 @@ fn mac_history(a: &[&str]) -> Vec<String> {
         let o = usz(p[1]);
         let cont = match p[0] {
             "i" => {
-                let d = expand(p[2]);
+                let d = skew(&expand(p[2]));
                 step(&mut out, || {
                     objs[o].as_mut().unwrap().input(&d);
                     None
@@ -441,7 +441,7 @@ fn dig_history(a: &[&str]) -> Vec<String> {
         let o = usz(p[1]);
         let cont = match p[0] {
             "i" => {
-                let d = expand(p[2]);
+                let d = skew(&expand(p[2]));
                 step(&mut out, || {
                     objs[o].as_mut().unwrap().input(&d);
                     None
